@@ -32,6 +32,10 @@ func VerifC11_DecodeTotal() {
 	}
 }
 
+// c11representativeCodes: unknown protocols take one of the representative codes
+// in every tier (harnesses whose subject is not the code)
+var c11representativeCodes bool
+
 type c11proto struct {
 	p   Protocol
 	enc []byte
@@ -55,7 +59,7 @@ func c11mkProto(i int) c11proto {
 		return c11proto{g, e}
 	}
 	var code uint64
-	if verif_Tier() == 0 || verif_Choose("codeMode", 0, 1) == 0 {
+	if verif_Tier() == 0 || c11representativeCodes || verif_Choose("codeMode", 0, 1) == 0 {
 		// representative unknown codes: below, between and above the known IDs
 		code = []uint64{0x01, 0x0905, 0x0915, 0x3001}[verif_Choose("codeIdx", 0, 3)]
 	} else {
@@ -126,6 +130,8 @@ func VerifC11_RoundTrip() {
 // shares memory with package state or with a later encoding), and encoding the
 // same value again gives the same bytes.
 func VerifC11_EncodingsIndependent() {
+	c11representativeCodes = true
+	defer func() { c11representativeCodes = false }()
 	mk := func() Metadata {
 		k := verif_Choose("count", 1, 2)
 		list := make([]Protocol, k)
